@@ -59,11 +59,18 @@ def gen(seed: int, tier: str) -> dict[str, Any]:
                      "ans_lat": rng.choice([0.005, 0.005, 0.5, 9.99, 10.01, 12.0])})
     ops = []
     if not clean and rng.random() < 0.4:
-        ops.append({"t": round(rng.uniform(0.01, 15.0), 6), "op": rng.choice(["srv_disconnect", "user_disconnect", "tcp_close"
-                                                                                if transport != "udp" else "srv_disconnect"])})
+        t_close = rng.uniform(0.01, 15.0)
+        if rng.random() < 0.35:
+            # just before an acknowledgement / answer timeout of a request sent at ~0 expires
+            t_close = 10.0 * rng.choice([1, 1, 2, 3]) - rng.uniform(-0.05, 1.1)
+        ops.append({"t": round(t_close, 6), "op": rng.choice(["srv_disconnect", "user_disconnect", "tcp_close"
+                                                                if transport != "udp" else "srv_disconnect"])})
     if rng.random() < 0.2:
         ops.append({"t": round(rng.uniform(0.0, 10.0), 6), "op": "indication"})
-    return {"seed": seed, "tier": "S", "config": {"transport": transport, "batch": 1, "route_back": rng.random() < 0.2},
+    # how the server treats the client's DisconnectRequest: answers, stays silent (the client waits 1 s), answers late
+    disc = rng.choice(["ok", "ok", "drop", "late"])
+    return {"seed": seed, "tier": "S", "config": {"transport": transport, "batch": 1, "route_back": rng.random() < 0.2,
+                                                  "disc": disc},
             "reqs": reqs, "ops": ops}
 
 
@@ -175,6 +182,10 @@ def run(plan: dict[str, Any]) -> dict[str, Any]:
         gw.script = {"cfgack": [{"k": {"ok": "ok", "none": "none", "dup": "dup", "late": "late", "error": "error"}[r["ack"]],
                                  "d": 10.5 if r["ack"] == "late" else 0.2} if r["ack"] != "ok" else None for r in reqs]}
 
+    if cfg.get("disc", "ok") != "ok":
+        gw.script = dict(getattr(gw, "script", None) or {})
+        gw.script["disconnect"] = [{"k": "drop"} if cfg["disc"] == "drop" else {"lat": 0.6}]
+
     async def main():
         ind_cb = lambda c: indications.append(c.to_knx())
         if tr == "udp":
@@ -225,6 +236,7 @@ def run(plan: dict[str, Any]) -> dict[str, Any]:
             if k == "srv_disconnect":
                 if gw.server_disconnect() is not None:
                     info["closed_at"] = loop.time()
+                    info["closed_by"] = "srv"
                     R.extra_faults["srv_disconnect"] += 1
             elif k == "tcp_close":
                 for c in net.tcp_conns:
@@ -232,9 +244,11 @@ def run(plan: dict[str, Any]) -> dict[str, Any]:
                         c.server_close(None)
                         gw.on_close(c)
                         info["closed_at"] = loop.time()
+                        info["closed_by"] = "tcp"
                         R.extra_faults["tcp_close"] += 1
             elif k == "user_disconnect":
                 info["closed_at"] = loop.time()
+                info["closed_by"] = "user"
                 info["user_disc"] = loop.create_task(conn.disconnect())
                 R.extra_faults["user_disconnect"] += 1
             elif k == "indication":
@@ -287,7 +301,19 @@ def run(plan: dict[str, Any]) -> dict[str, Any]:
         else:
             # failures are prompt: after a close, a request waiting for its answer fails at that instant
             if info["closed_at"] is not None and rec["t_call"] <= info["closed_at"] <= rec["t_ret"]:
-                late = rec["t_ret"] - info["closed_at"]
+                # the close counts from the instant the client can know of it: its DisconnectResponse to a server
+                # DisconnectRequest (a request transmitted while that frame is in flight starts a fresh 10 s
+                # acknowledgement timeout); a DisconnectRequest that never arrived closes nothing at the client
+                seen = info["closed_at"]
+                if info.get("closed_by") == "srv":
+                    seen = next((t for (n, t, it, kind, actor, detail) in R.events
+                                 if t >= info["closed_at"] and kind in ("udp_out", "tcp_out")
+                                 and (kind == "tcp_out" or str(actor).startswith(net.local_ip + ":"))
+                                 and W.DISCONNECT_RES in [x[0] for x in W.split_all(bytes.fromhex(detail))]), None)
+                    if seen is None:
+                        R.probes["server_disconnect_not_seen_by_client"] += 1
+                        continue
+                late = rec["t_ret"] - seen
                 if late > 10.0 + 1e-6:
                     R.violate("C32.prompt-failure", "failed-late-after-close", f"request {rec['i']} failed {late:.3f}s after the connection was closed")
                 else:
@@ -300,6 +326,20 @@ def run(plan: dict[str, Any]) -> dict[str, Any]:
             sp = W.split(bytes.fromhex(detail))
             if sp and sp[0] == W.DEVCFG_REQ and len(sp[1]) >= 4:
                 outs.append((n, t, sp[1][2], sp[1][4:]))
+    # nothing is transmitted on a connection the client knows to be closed (a repetition after the close would also
+    # restart the acknowledgement timeout and so delay the failure of the pending request)
+    if tr == "udp" and info["closed_at"] is not None:
+        seen = info["closed_at"]
+        if info.get("closed_by") == "srv":
+            seen = next((t for (n, t, it, kind, actor, detail) in R.events
+                         if t >= info["closed_at"] and kind == "udp_out" and str(actor).startswith(client_ip + ":")
+                         and (W.split(bytes.fromhex(detail)) or (0,))[0] == W.DISCONNECT_RES), None)
+        if seen is not None:
+            for (n, t, ctr, raw) in outs:
+                if t > seen + 1e-9:
+                    R.violate("C32.prompt-failure", "request-sent-after-close",
+                              f"DeviceConfigurationRequest (counter {ctr}) transmitted at {t:.6f}, the connection was closed at {seen:.6f}")
+                    break
     # UDP: repetitions with the same counter, 10 s apart, at most 3
     if tr == "udp":
         i = 0
